@@ -259,7 +259,13 @@ func runInner(t *testing.T, in input) emit.Case {
 	txsU = append(txsU, 999999)
 	txOf[999999] = ids.ID{0xdd}
 
-	dir := t.TempDir()
+	// one scratch directory per case, removed when the case ends (t.TempDir() would keep every
+	// case's pebble files until the whole run finishes)
+	dir, err := os.MkdirTemp(t.TempDir(), "case")
+	if err != nil {
+		panic(err)
+	}
+	defer os.RemoveAll(dir)
 	parser := chaintest.NewTestParser()
 	ix, err := indexer.NewIndexer(dir, parser, in.W0)
 	if err != nil {
